@@ -442,7 +442,7 @@ func selfTestChecker() error {
 	return nil
 }
 
-const ruleC07 = "concurrent: rapid draws a plan (start value biased to 0,1,65534,65535; 2-16 goroutines; 70k-400k operations so that the value wraps 1-6 times; RollOverCount read mix; Gosched pattern; GOMAXPROCS 2/4/16); every operation is recorded with invocation/response stamps from one atomic counter and the complete history is decided by an exact linearizability checker for the counter specification (greedy with exchange argument, self-tested on hand-made illegal histories), plus multiset-of-values check; half of the shards run under the Go race detector. wrapburst: plans that put 2-16 goroutines x 2-24 calls (Next alternating with RollOverCount) right around the 65535->0 wrap, each repeated for 600 (thorough 3000) trials on fresh sequencers, every trial's history decided by the same checker. sequential: fixed sequencers stepped through two wraps from boundary/drawn starts (thorough: all 65536 starts), RollOverCount = zeros issued after every call; NewRandomSequencer first value < 2^15. Non-trivial = history with overlapping operations of different goroutines and >=1 wrap, or a sweep that wraps; distinct = FNV-64 of the plan"
+const ruleC07 = "concurrent: rapid draws a plan (start value biased to 0,1,65534,65535; 2-16 goroutines; 70k-400k operations so that the value wraps 1-6 times; RollOverCount read mix; Gosched pattern; GOMAXPROCS 2/4/16); every operation is recorded with invocation/response stamps from one atomic counter and the complete history is decided by an exact linearizability checker for the counter specification (greedy with exchange argument, self-tested on hand-made illegal histories), plus multiset-of-values check; half of the shards run under the Go race detector. wrapburst: plans that put 2-16 goroutines x 2-24 calls (Next alternating with RollOverCount) right around the 65535->0 wrap, each repeated for 600 (thorough 3000) trials on fresh sequencers, every trial's history decided by the same checker. sequential: fixed sequencers stepped through two wraps from boundary/drawn starts (thorough: all 65536 starts), RollOverCount = zeros issued after every call; NewRandomSequencer first value < 2^15. randomconcurrent: 2-16 goroutines make the very first 1-100 calls each on one fresh random sequencer together (300 trials per plan, 40 under the race detector): values handed out are min..min+N-1 without duplicate or gap, increasing per goroutine, min < 2^15, RollOverCount 0. Non-trivial = history with overlapping operations of different goroutines and >=1 wrap, or a sweep that wraps; distinct = FNV-64 of the plan"
 
 func TestC07(t *testing.T) {
 	r := begin(t, "C07", "exploration", ruleC07)
@@ -465,6 +465,11 @@ func TestC07(t *testing.T) {
 		subC07Burst.rapidRun(r, n(50, 300), genWrapBurst)
 	}
 	lastPlanPath = ""
+	// random sequencers under concurrent FIRST calls (a lazily initialised start would show here)
+	subC07RandConc.rapidRun(r, n(6, 30), func(t *rapid.T) *RandConcCase {
+		return &RandConcCase{Goroutines: rapid.SampledFrom([]int{2, 3, 4, 8, 16}).Draw(t, "g"), Calls: rapid.SampledFrom([]int{1, 2, 3, 8, 100}).Draw(t, "calls"),
+			Trials: map[bool]int{true: 40, false: 300}[race], Procs: rapid.SampledFrom([]int{2, 4, 16}).Draw(t, "procs")}
+	})
 	if race {
 		r.col.Note("this shard ran under the Go race detector")
 
@@ -533,6 +538,75 @@ var subC07Rand = register("C07", "random", func(r *run, c *RandSeqCase) (CaseInf
 		}
 		if w := s.NextSequenceNumber(); w != v+1 {
 			return ci, failf("random sequencer: %d followed by %d", v, w)
+		}
+	}
+
+	return ci, nil
+})
+
+// RandConcCase: several goroutines make the very FIRST calls on one random sequencer together.
+// The start value is unknown, so the oracle is the shape of the result: the values handed out are
+// min, min+1, ..., min+N-1 (no duplicate, no gap; N <= 20000 so no wrap from a start < 2^15), every
+// goroutine sees its own values increase, min < 2^15, RollOverCount stays 0.
+type RandConcCase struct {
+	Goroutines int `json:"goroutines"`
+	Calls      int `json:"calls"` // per goroutine
+	Trials     int `json:"trials"`
+	Procs      int `json:"procs"`
+}
+
+var subC07RandConc = register("C07", "randomconcurrent", func(r *run, c *RandConcCase) (CaseInfo, error) {
+	var ci CaseInfo
+	ci.class("random-sequencer-concurrent-first-calls")
+	ci.Nontrivial = true
+	old := runtime.GOMAXPROCS(c.Procs)
+	defer runtime.GOMAXPROCS(old)
+	total := c.Goroutines * c.Calls
+	for trial := 0; trial < c.Trials; trial++ {
+		seq := rtp.NewRandomSequencer()
+		got := make([][]uint16, c.Goroutines)
+		var ready, done sync.WaitGroup
+		start := make(chan struct{})
+		for g := 0; g < c.Goroutines; g++ {
+			ready.Add(1)
+			done.Add(1)
+			go func(g int) {
+				defer done.Done()
+				vals := make([]uint16, 0, c.Calls)
+				ready.Done()
+				<-start
+				for k := 0; k < c.Calls; k++ {
+					vals = append(vals, seq.NextSequenceNumber())
+				}
+				got[g] = vals
+			}(g)
+		}
+		ready.Wait()
+		close(start)
+		done.Wait()
+		seen := make(map[uint16]int, total)
+		minV := uint16(65535)
+		for g, vals := range got {
+			for k, v := range vals {
+				seen[v]++
+				if v < minV {
+					minV = v
+				}
+				if k > 0 && v <= vals[k-1] {
+					return ci, failf("trial %d: goroutine %d received %d after %d from one random sequencer (%d goroutines x %d first calls)", trial, g, v, vals[k-1], c.Goroutines, c.Calls)
+				}
+			}
+		}
+		if minV >= 1<<15 {
+			return ci, failf("trial %d: smallest value handed out is %d (>= 2^15)", trial, minV)
+		}
+		for i := 0; i < total; i++ {
+			if n := seen[minV+uint16(i)]; n != 1 {
+				return ci, failf("trial %d: %d goroutines x %d first calls on one random sequencer: value %d (smallest %d + %d) handed out %d times; %d distinct values for %d calls", trial, c.Goroutines, c.Calls, minV+uint16(i), minV, i, n, len(seen), total)
+			}
+		}
+		if roc := seq.RollOverCount(); roc != 0 {
+			return ci, failf("trial %d: RollOverCount %d after %d calls from a start below 2^15", trial, roc, total)
 		}
 	}
 
